@@ -17,7 +17,7 @@ Bounded(e) == /\ \A d \in Devs : e.m[d] >= 0 /\ e.m[d] <= Cap[d]
               /\ e.m.pf >= 0
 Step(e) ==
     /\ Bounded(e)
-    /\ \/ e.op = "fire" /\ Fire(e.d)
+    /\ \/ e.op = "fire" /\ Fire(e.d, e.t)
        \/ e.op = "leave" /\ Leave(e.d, e.b, e.kind)
        \/ e.op = "noleave" /\ NoLeave(e.d)
        \/ e.op = "arrive" /\ Arrive(e.b) /\ act'.at = e.at
@@ -28,6 +28,7 @@ Step(e) ==
        \/ e.op = "release" /\ Release(e.d)
        \/ e.op = "broken" /\ Broken(e.d)
        \/ e.op = "request" /\ Request
+       \/ e.op = "reqdev" /\ ReqDev(e.d)
        \/ e.op = "hold" /\ HoldArm(e.d)
        \/ e.op = "held" /\ Held(e.d)
        \/ e.op = "unhold" /\ Unhold(e.d)
@@ -40,10 +41,14 @@ Step(e) ==
           \* C05: a device that has given up (state eject_broken) must have said so; once a device is broken the remaining
           \* requests may be unservable, so idle / delivery are only demanded while no device is broken
           /\ \A i \in DOMAIN e.states : e.states[i] = "eject_broken" => e.devs[i] \in broken
-          /\ (broken # {} \/ e.idle \/ (want > Avail /\ SeqToSet(e.states) \subseteq {"idle", "waiting_for_ball"}))
+          /\ (broken # {} \/ e.idle \/ ((want > Avail \/ (\E d \in Requestable : DevUnserved(d) /\ In(Home) = {}) \/ (everlost /\ In(Home) = {}))
+                                           /\ SeqToSet(e.states) \subseteq {"idle", "waiting_for_ball"}))
           \* (a ball more than requested on the playfield is not what either statement forbids: reported as an
           \*  observation by the driver, not judged here)
           /\ (broken # {} \/ Cardinality(In("pf")) >= Served)
+          \* C05: a ball requested for a device itself has been delivered there (over however many hops, also after a ball was
+          \* lost on the way) unless no ball is left in the trough to send
+          /\ (broken # {} \/ \A d \in Requestable : DevUnserved(d) => In(Home) = {})
 TNext == l <= Len(TL) /\ Step(TL[l]) /\ l' = l + 1 /\ UNCHANGED tid
 TSpec == TInit /\ [][TNext]_tvars
 Reporter == TraceReport(tid, l, Len(TL))
